@@ -271,7 +271,8 @@ def check(prog, rep):
         try:
             et = tags.evaluate_tag(prog, k)
         except tags.Unknown as e:
-            raise AnalysisError(f"R01.7: {k}.evaluate: {e}")
+            rep.undecided(f"R01.7: {k}.evaluate: {e}")
+            continue
         for fi, d in ((rec, drec), (it, dit)):
             a = exact_arm(d, prog, k)
             if a is None or k not in a.kinds:
@@ -279,12 +280,14 @@ def check(prog, rep):
             env = arm_env(a)
             lams = result_lambdas(a)
             if not lams:
-                raise AnalysisError(f"{fi.name}: arm for {k} builds no result closure")
+                rep.undecided(f"{fi.name}: arm for {k} builds no result closure in the recognised form")
+                continue
             for lam in lams:
                 try:
                     ct = tags.closure_tag(lam, env, d.subject)
                 except tags.Unknown as e:
-                    raise AnalysisError(f"R01.7: {fi.name}[{k}]: {e}")
+                    rep.undecided(f"R01.7: {fi.name}[{k}]: {e}")
+                    continue
                 rep.ob("R01.7", f"{fi.name}[{k}]", ct == et,
                        f"closure and {k}.evaluate both denote {_show(et)}" if ct == et else
                        f"the compiled closure denotes {_show(ct)} but {k}.evaluate denotes {_show(et)}",
